@@ -369,7 +369,8 @@ def linalg_eigvals(a):
     vs = []
     for i in range(n):
         v = z3.Real("eig!%d_%d" % (k, i))
-        c.assume(v > 0, internal=True)
+        # positive definite and clear of the library's eigenvalue tolerance (2e-14): no jitter is applied
+        c.assume(v > z3.Q(1, 1000), internal=True)
         vs.append(SV(v))
     return SymArray(mkobj(vs), _F64)
 
